@@ -269,6 +269,17 @@ func genKeyGrid(r *rng, n int, p func(string, ...any)) {
 		p("keyuse %s", hexs(wMap(wTag(tag, wInt(1)), wInt(4), wInt(-1), wBstr([]byte{0xaa})).enc()))
 		p("keyuse %s", hexs(wMap(wInt(1), wInt(4), wInt(-1), wBstr([]byte{0xaa}), wTag(tag, wTstr("a")), wInt(1)).enc()))
 	}
+	// a COSE_Key wrapped in a tag (the CBOR library looks through tags when decoding into a map), with
+	// and without a tagged label inside: not a COSE_Key
+	for _, tag := range []uint64{55799, 18, 100, 2} {
+		k := &keyFields{kty: wInt(1), crv: wInt(6), x: wBstr(r.bytes(32))}
+		p("keyuse %s", hexs(wTag(tag, k.wire(nil)).enc()))
+		p("dec key %s", hexs(wTag(tag, k.wire(nil)).enc()))
+		m := k.wire(nil)
+		m.Items[0] = wTag(55799, m.Items[0])
+		p("keyuse %s", hexs(wTag(tag, m).enc()))
+		p("keyuse %s", hexs(wTag(tag, wTag(55799, k.wire(nil))).enc()))
+	}
 	// an integer label and the text label that spells it: two different labels, both kept
 	for _, n := range []int64{-2, -1, 7, 99, -70001, 1, 3} {
 		k := &keyFields{kty: wInt(2), crv: wInt(1), x: wBstr(coordOfLen(r, 32)), y: wBstr(coordOfLen(r, 32))}
